@@ -9,6 +9,7 @@ static Scratch g_scr;
 
 static void run(Src &s) {
   GOpts o;
+  o.cont_after_quoted = true;
   GFile f = gen_file(s, o);
   std::string path = g_scr.dir + "/f.conf";
   std::string text = f.text();
